@@ -1,8 +1,10 @@
 (* Driver for the C03 / C06 correspondence: runs the event-level connection model on one case
    (configuration, handler scripts, rounds) and renders, per poll, the wire items accepted by the
-   socket, the service calls started and the state of the connection future. *)
+   socket, the service calls started and the state of the connection future. For C03 the driver
+   also evaluates the Coq F15 class ([calm] = outside [Known_F15]) on the case's input, so that the
+   harness's mirror of that predicate is checked on every generated case. *)
 From Coq Require Import String.
-Require Import AV.Lib.Base AV.Lib.V AV.H1.ConnRec AV.H1.ConnState.
+Require Import AV.Lib.Base AV.Lib.V AV.H1.ConnRec AV.H1.ConnState AV.H1.ConnQuiet.
 Open Scope N_scope.
 
 Record case := mkCase { c_cfg : cfg; c_hs : list (list hact); c_rounds : list round }.
@@ -37,4 +39,6 @@ Fixpoint run_rounds (c : cfg) (rs : list round) (s : st) : list V :=
   end.
 
 Definition run_conn (k : case) : V := VL (run_rounds (c_cfg k) (c_rounds k) (init (c_cfg k) (c_hs k))).
-Definition run_C03 := run_conn.
+Definition run_C03 (k : case) : V :=
+  VL (run_rounds (c_cfg k) (c_rounds k) (init (c_cfg k) (c_hs k)) ++
+      [VT "calm" [VBool (calm (c_cfg k) (number 0 (c_hs k)) (poll_arrivals (c_rounds k)))]]).
